@@ -15,6 +15,24 @@
 #include "drv_event_common.h"
 
 static MPT_STRUCT(dispatch) disp_storage;
+
+/* a second dispatcher whose handlers unregister another id from inside their end-of-life call (op reentry) */
+static MPT_STRUCT(dispatch) re_disp;
+static struct re_reg { int eol; uintptr_t victim; } re_regs[12];
+static int re_depth;
+static int re_handler(void *arg, MPT_STRUCT(event) *ev)
+{
+	struct re_reg *r = arg;
+	if (ev) return 0;
+	++r->eol;
+	/* the depth limit only keeps a library that calls back without end from exhausting the stack */
+	if (r->victim && re_depth < 40) {
+		++re_depth;
+		mpt_dispatch_set(&re_disp, r->victim, 0, 0);
+		--re_depth;
+	}
+	return 0;
+}
 static void drv_release(void) { mpt_dispatch_fini(DISP); }
 
 int main(void)
@@ -34,6 +52,7 @@ int main(void)
 			D = (struct drv_rawdisp *) &disp_storage;
 			mpt_dispatch_init(DISP);
 			have = 1;
+			rc_on = 0;
 			nreg = 1; /* registration 0 is the fallback */
 			if (drv_w[2][0] == 'f') { D->_err.cmd = handler; D->_err.arg = &regs[0]; }
 			else if (drv_w[2][0] == 'n') { D->_err.cmd = 0; D->_err.arg = 0; }
@@ -42,7 +61,12 @@ int main(void)
 			continue;
 		}
 		if (!have) { puts("bad-op"); continue; }
-		if ((!strcmp(op, "set") || !strcmp(op, "cset")) && drv_nw == 3) {
+		if (!strcmp(op, "rc") && drv_nw == 3 && (!strcmp(drv_w[2], "on") || !strcmp(drv_w[2], "off"))) {
+			/* from now on the events carry (no longer carry) a reply context */
+			rc_on = drv_w[2][1] == 'n';
+			result("ok", "0", 0);
+		}
+		else if ((!strcmp(op, "set") || !strcmp(op, "cset")) && drv_nw == 3) {
 			if (parse_id(drv_w[2], &id) || nreg >= MAXREG) { puts("bad-op"); continue; }
 			size_t r = nreg++;
 			int ret = (*op == 's')
@@ -59,7 +83,7 @@ int main(void)
 			result("ok", "0", 0);
 		}
 		else if (!strcmp(op, "emit") && drv_nw == 5 && !strcmp(drv_w[2], "id")) {
-			MPT_STRUCT(event) ev = MPT_EVENT_INIT;
+			MPT_STRUCT(event) ev = MPT_EVENT_INIT; EV_RC(ev);
 			if (parse_id(drv_w[3], &id) || parse_res(drv_w[4])) { puts("bad-op"); continue; }
 			ev.id = id;
 			int ret = mpt_dispatch_emit(DISP, &ev);
@@ -68,7 +92,7 @@ int main(void)
 		else if (!strcmp(op, "hashf") && drv_nw == 4) {
 			/* mpt_dispatch_hash with the message given in fragments "<hex>,<hex>,..." ("-" = empty fragment), each in a
 			 * block of exactly its size */
-			MPT_STRUCT(event) ev = MPT_EVENT_INIT;
+			MPT_STRUCT(event) ev = MPT_EVENT_INIT; EV_RC(ev);
 			MPT_STRUCT(message) msg = MPT_MESSAGE_INIT;
 			struct iovec vec[16];
 			uint8_t *blk[17];
@@ -97,7 +121,7 @@ int main(void)
 			for (i = 0; i < nf; i++) free(blk[i]);
 		}
 		else if (!strcmp(op, "emit") && drv_nw == 5 && (!strcmp(drv_w[2], "msg") || !strcmp(drv_w[2], "cmd"))) {
-			MPT_STRUCT(event) ev = MPT_EVENT_INIT;
+			MPT_STRUCT(event) ev = MPT_EVENT_INIT; EV_RC(ev);
 			MPT_STRUCT(message) msg = MPT_MESSAGE_INIT;
 			uint8_t *dat; size_t dlen; int isnull;
 			if (parse_res(drv_w[4]) || drv_parse_data(drv_w[3], &dat, &dlen, &isnull)) { puts("bad-op"); continue; }
@@ -114,7 +138,7 @@ int main(void)
 			result_ret(mpt_dispatch_emit(DISP, 0), 0);
 		}
 		else if (!strcmp(op, "hash") && drv_nw == 4) {
-			MPT_STRUCT(event) ev = MPT_EVENT_INIT;
+			MPT_STRUCT(event) ev = MPT_EVENT_INIT; EV_RC(ev);
 			MPT_STRUCT(message) msg = MPT_MESSAGE_INIT;
 			uint8_t *dat; size_t dlen; int isnull;
 			if (parse_res(drv_w[3]) || drv_parse_data(drv_w[2], &dat, &dlen, &isnull)) { puts("bad-op"); continue; }
@@ -127,7 +151,7 @@ int main(void)
 		}
 		else if (!strcmp(op, "hashn") && drv_nw == 2) {
 			/* mpt_dispatch_hash with an event that carries no message */
-			MPT_STRUCT(event) ev = MPT_EVENT_INIT;
+			MPT_STRUCT(event) ev = MPT_EVENT_INIT; EV_RC(ev);
 			ev.id = 77;
 			int ret = mpt_dispatch_hash(DISP, &ev);
 			result_ret(ret, ev.id);
@@ -173,11 +197,50 @@ int main(void)
 			snprintf(buf, sizeof(buf), "%" PRIuPTR, got ? ids[got-1] : (uintptr_t) 0);
 			result(v, buf, 0);
 		}
+		else if (!strcmp(op, "reentry") && drv_nw == 4) {
+			/* n handlers (ids 1..n) on a dispatcher of their own; the end-of-life call of handler k unregisters id v_k
+			 * (0 = nobody).  After <mode> (fini | clearall | drop | clear<k> | cset<k>) and the teardown every registration
+			 * must have had exactly one end-of-life call */
+			uintptr_t vic[8];
+			size_t n = 0, i, which = 0;
+			char *p, v[96];
+			int bad = 0, mode;
+			const char *m = drv_w[2];
+			if (!strcmp(m, "fini")) mode = 0;
+			else if (!strcmp(m, "clearall")) mode = 1;
+			else if (!strcmp(m, "drop")) mode = 2;
+			else if (!strncmp(m, "clear", 5) && m[5] >= '1' && m[5] <= '8' && !m[6]) { mode = 3; which = (size_t) (m[5] - '0'); }
+			else if (!strncmp(m, "cset", 4) && m[4] >= '1' && m[4] <= '8' && !m[5]) { mode = 4; which = (size_t) (m[4] - '0'); }
+			else { puts("bad-op"); continue; }
+			for (p = drv_w[3]; p && !bad; ) {
+				char *c = strchr(p, ',');
+				if (c) *c = 0;
+				if (n >= 8 || p[0] < '0' || p[0] > '8' || p[1]) bad = 1; else vic[n++] = (uintptr_t) (p[0] - '0');
+				p = c ? c + 1 : 0;
+			}
+			for (i = 0; i < n; i++) if (vic[i] > n) bad = 1;
+			if (bad || !n || which > n) { puts("bad-op"); continue; }
+			memset(re_regs, 0, sizeof(re_regs));
+			mpt_dispatch_init(&re_disp);
+			for (i = 0; i < n; i++) {
+				re_regs[i].victim = vic[i];
+				mpt_dispatch_set(&re_disp, i + 1, re_handler, &re_regs[i]);
+			}
+			re_depth = 0;
+			if (mode == 1) mpt_command_clear((MPT_STRUCT(array) *) (void *) &re_disp._d);
+			else if (mode == 2) mpt_array_clone((MPT_STRUCT(array) *) (void *) &re_disp._d, 0);
+			else if (mode == 3) mpt_dispatch_set(&re_disp, which, 0, 0);
+			else if (mode == 4) { mpt_command_set((MPT_STRUCT(array) *) (void *) &re_disp._d, which, (int (*)(void *, void *)) re_handler, &re_regs[n]); ++n; }
+			mpt_dispatch_fini(&re_disp);
+			p = v + snprintf(v, sizeof(v), "eol=");
+			for (i = 0; i < n; i++) p += snprintf(p, sizeof(v) - (size_t) (p - v), "%s%d", i ? "," : "", re_regs[i].eol);
+			result(v, "0", 0);
+		}
 		else if (!strcmp(op, "holdemit") && drv_nw == 3) {
 			/* known finding: an event that reaches a reservation which is still outstanding (placeholder handler
 			 * log_reply, which takes its second argument for a message) */
 			uintptr_t w;
-			MPT_STRUCT(event) ev = MPT_EVENT_INIT;
+			MPT_STRUCT(event) ev = MPT_EVENT_INIT; EV_RC(ev);
 			if (parse_id(drv_w[2], &w) || w > 9) { puts("bad-op"); continue; }
 			MPT_STRUCT(command) *c = mpt_command_reserve((MPT_STRUCT(array) *) (void *) &D->_d, w);
 			if (!c) { result("refused", "null", 0); continue; }
@@ -205,7 +268,9 @@ int main(void)
 				c->arg = &regs[r];
 				snprintf(v, sizeof(v), "ok fresh=%d", fresh);
 				snprintf(buf, sizeof(buf), "%" PRIuPTR, c->id);
+				new_reg = r;
 				result(v, buf, 0);
+				new_reg = (size_t) -1;
 			}
 		}
 		else if (!strcmp(op, "drop") && drv_nw == 2) {
